@@ -21,6 +21,7 @@ func init() {
 			"R2": "guard ↔ action agreement and priority order",
 			"R3": "pay amounts are the posted ante / blind for the player's position, and the Actions wrapper and engine adapter forward operation, id and amount unchanged to the engine (shared with C18.R5)",
 			"R4": "automation only when suspended or inside the action-time timer callback (not cancelled)",
+			"R6": "receiver discipline: no method of these types assigns to a field of a value receiver (the assignment would be lost) or copies a sync.* field through its receiver (player runner — status, idle count, remembered view time —, actor, actions, engine adapter)",
 			"R5": "timer discipline: the runner's time bank is created once, by the constructor (a replaced time bank orphans the pending task, which then auto-plays a stale request before the new thinking time has elapsed); a view discarded by the staleness filter performs no time-bank operation",
 		},
 		Assumptions: []string{"timebank.NewTask(d, fn) does not call fn(false) before d has elapsed (d > 0)"},
@@ -96,6 +97,7 @@ func checkPayAmount(c *Ctx, rule, key string, ci ssa.CallInstruction) {
 
 func checkC19(c *Ctx) {
 	p := c.P
+	checkReceiverDiscipline(c, "R6", func(n string) bool { return n == "playerRunner" || n == "actor" || n == "actions" || n == "tableEngineAdapter" }, 30)
 	checkNoKnownNilErrorReturn(c, "R1", func(f *ssa.Function) bool { return inPkg(p, f, "/actor") }, 5)
 	ri := p.Iface("/actor", "Runner")
 	if ri == nil {
